@@ -9,7 +9,7 @@ static const Info I = {
     "finally every handle is dropped. Reference model = set of listeners waiting at each emission; after every op each listener's received sequence equals the model's (every waiting listener gets exactly that value exactly once, a re-awaiting listener misses none; "
     "a listener subscribing concurrently with an emission may or may not get that one), after the last handle died every waiting coroutine saw await_canceled_exception, callbacks were released, allocation balance 0. Domain: one collector call at a time (documented). "
     "Non-trivial = >=2 listeners waiting at some emission; distinct = hash(decoded history, executed switch trace).",
-    c15::class_names, 4, c15::counter_names, 1};
+    c15::class_names, 4, c15::counter_names, 2};
 const Info &info() { return I; }
 void run_case(Reader &r) { c15::run(r); }
 std::string describe(Reader &r) { return c15::describe(c15::decode(r)); }
